@@ -162,6 +162,14 @@ NP_ALIASES = {'fabs': 'abs', 'absolute': 'abs', 'conjugate': 'conj', 'conj': 'co
 EXTERNAL_MODULES = {'numpy', 'np', 'math', 'cmath', 'libc.math', 'libc', 'scipy.constants', 'scipy', 'numba'}
 
 
+def c_sizeof(t):
+    """size in bytes of a C type name as the compiled sources spell it (LP64)"""
+    t = ' '.join(str(t).replace('const ', ' ').split())
+    if t.endswith('*'): return 8
+    return {'char': 1, 'unsigned char': 1, 'signed char': 1, 'bint': 4, 'int': 4, 'unsigned int': 4, 'short': 2, 'long': 8, 'unsigned long': 8, 'long long': 8, 'size_t': 8, 'ssize_t': 8,
+            'Py_ssize_t': 8, 'float': 4, 'double': 8, 'double complex': 16, 'float complex': 8, 'long double': 16}.get(t)
+
+
 def is_num(v):
     return isinstance(v, (int, Fraction, Node)) and not isinstance(v, bool)
 
@@ -769,6 +777,11 @@ class Interp:
     def cast(self, typ, v, fr, e):
         t = typ.replace(' ', '')
         if t.endswith('*'):
+            # a freshly allocated heap block gets its extent from the byte count it was allocated with and the element type it is cast to
+            if isinstance(v, Arr) and getattr(v, 'nbytes', None) is not None and v.extent is None:
+                esz = c_sizeof(typ.strip()[:-1].strip())
+                if esz:
+                    v.extent = v.nbytes // esz
             return v
         if isinstance(v, (Node, Fraction)) and ('int' in t or 'size_t' in t or 'char' in t or 'long' in t) and 'double' not in t:
             c = concrete(v)
@@ -1339,7 +1352,9 @@ class Interp:
             return Obj(name='finfo', attrs={'eps': X.atom('float_eps', 'pos'), 'max': X.atom('float_max', 'pos'),
                                             'min': X.atom('float_min_neg', 'real'), 'tiny': X.atom('float_tiny', 'pos')})
         if nm == 'sizeof':
-            return Opaque('sizeof')
+            t_ = args[0] if args and isinstance(args[0], str) else None
+            sz = c_sizeof(t_) if t_ is not None else None
+            return sz if sz is not None else Opaque('sizeof')
         if nm in ('floor', 'ceil'):
             c = concrete(args[0])
             if c is not None:
